@@ -153,6 +153,8 @@ def gen_scenario(rng, k, force=None):
          "ends", "random", "clean", "month_usage", "month_ghi"])
     if fam == "daily" and period == "reporting" and sc.get("observed_column") and not force.get("target") and rng.random() < 0.2:
         target = "rep_partial"       # usage on the first part of the reporting period only
+    if fam == "daily" and sc["entry"] == "from_series" and not force.get("target") and rng.random() < 0.12:
+        target = "edges"             # readings without a value at the outer edges (from_series trims them)
     if target == "nodata":
         sc.pop("read_hour", None)      # without any read the class falls back to the midnight grid
     delta = rng.choice([-1, 0, 0, 1])
@@ -190,6 +192,13 @@ def gen_scenario(rng, k, force=None):
             um = cells
         else:
             sc["ghi_missing"] = to_runs(cells)
+    elif target == "edges":
+        # leading / trailing cells without temperature and / or usage; partial edge days come from the hour conversion
+        a, b = rng.choice([0, 1, 2, 3]), rng.choice([0, 1, 2])
+        tmiss = list(range(0, a)) + list(range(n - b, n))
+        a2, b2 = rng.choice([0, 0, 1, 4]), rng.choice([0, 0, 1, 3])
+        um = list(range(0, a2)) + list(range(n - b2, n))
+        um += place(rng, months, lo + 5, hi - 5, rng.choice([0, 3, 30, 36]), caps=False)
     elif target == "rep_partial":
         if sc["entry"] == "from_series":
             sc["entry"] = "frame"                      # from_series trims to the rows that have usage
@@ -245,6 +254,16 @@ def gen_scenario(rng, k, force=None):
                 j += 1
         first[sc["span"]] = j
         runs = []
+        tset = set(tmiss)
+        # from_series with a meter series: a leading day with only part of its temperature hours missing makes the
+        # joined index irregular (the meter row at midnight precedes the first temperature row) and sends the class
+        # down its pre-aggregated-temperature path - not generated (see the report); leading days are missing whole
+        whole_leading = set()
+        if sc["entry"] == "from_series" and L.has_meter(sc) and target != "nodata":
+            d = 0
+            while d in tset:
+                whole_leading.add(d)
+                d += 1
         for d in tmiss:
             tot = first[d + 1] - first[d]
             kk = rng.choice([3, 3, tot // 2, tot // 2 + 1, tot, tot - 21])       # invalid day: under 90 % of its hours
@@ -253,10 +272,17 @@ def gen_scenario(rng, k, force=None):
             if target == "nodata":      # no day keeps more than half of its hours; the series itself is not all-NaN
                 kk = rng.randrange(tot - tot // 2, tot - 1)
                 off = 1
+            if target == "edges":       # the outermost missing day may be partial, the block touches the edge
+                kk = tot if 0 < d < sc["span"] - 1 and (d + 1 in tmiss or d - 1 in tmiss) and rng.random() < 0.6 else \
+                    rng.choice([tot, 13, 3, 1])
+                kk = min(kk, tot)
+                off = 0 if d < sc["span"] // 2 else tot - kk
+            if d in whole_leading:
+                kk, off = tot, 0
             runs.append([first[d] + off, kk])
         for _ in range(rng.choice([0, 0, 2, 5])):                                # still-valid days missing 1-2 hours
-            d = rng.randrange(0, sc["span"])
-            if d not in set(tmiss):
+            d = rng.randrange(1 if (sc["entry"] == "from_series" and L.has_meter(sc)) else 0, sc["span"])
+            if d not in tset:
                 runs.append([first[d] + rng.randrange(0, 20), rng.choice([1, 2])])
         sc["temp_missing"] = sorted(runs)
     else:
@@ -335,7 +361,7 @@ def gen_billing(rng, sc):
         m = rng.choice(list(g))
         Lm = len(g[m])
         allowed = Lm - ceil_div(9 * Lm, 10)
-        tmiss = choose_cells(rng, [c for c in g[m] if 1 <= c < n - 1] or g[m], max(0, allowed + rng.choice([0, 1])), "blocks")
+        tmiss = choose_cells(rng, [c for c in g[m] if 1 <= c < n - 1], max(0, allowed + rng.choice([0, 1])), "blocks")
     else:
         tmiss = place(rng, months, 1, n - 1, rng.choice([0, 0, 2]), caps=True)
     if sc["temp_source"] == "hourly":
@@ -687,6 +713,10 @@ def main():
         "a calendar month is a month of the year (rows of the same month number of two years form one group)",
         "usage is optional for reporting data: only the temperature (and irradiance) criteria apply to it",
         "a day's temperature is valid when more than 90 % of its hours are present and present when more than half are",
+        "readings without a value at the outer edges of a series handed to from_series are not data (the entry point "
+        "'trims the data to exclude NaNs on the outer edges'): the judged data starts / ends at the first / last reading "
+        "that has a value, and an edge day is judged on the hours that were supplied; the frame constructors keep such "
+        "rows, there they count as missing",
         "with no complete row at all the span is undefined: no_data is required, the three 90 % criteria are not compared",
         "billing: a stamp without a reading does not start a period; temperature covers [first stamp, closing stamp) "
         "(frame) or up to the closing stamp (from_series)",
